@@ -24,7 +24,7 @@ impl Prop for C01 {
         "exploration"
     }
     fn rule(&self) -> String {
-        "run = seeded valid writer history (start/append/end/add interleaved, boundary-biased piece sizes relative to the variant's constants) on one of the variants s0/s1/prodv/prod x 4 layer sets x level 0..11 x 1..4 recipients (one encrypted run in 30: 17, 84, 85, 86, 128, 300 or 1000 recipients; one scaled run in 25: 65..300 files of which 1-3 stay open across dozens of others; one in 60: a file with 255..4100 - thorough: 65537 - non-contiguous runs; one compressed production-size run in 10: a 4-5 MiB file of incompressible data appended in pieces of 64..512 bytes, i.e. 8000..80000 appends into one compression block, now and then with a flush after each), written to the simulated sink with full transfers (one history in four with flushes between calls, one in five with piece sources that return short reads or hold more than announced), then read back through the simulated source (caller buffers of 4 KiB, now and then 1, 7, 100, CHUNK-1, CHUNK+1, 64 KiB or 1 MiB bytes); the first 4104 runs enumerate every content length 0..512 on s0 for 1- and 2-file archives x 4 layer sets. The last 4 runs of the thorough tier hold a file of 2^32 + up to 64 MiB bytes (streamed; zeros under compression alone / over encryption; on the last one incompressible noise under compression, so that the compressed blocks themselves total more than 2^32 bytes - that archive lives in a scratch file; production constants; judged on listing, announced size, streamed length and SHA-256, stored hash, and the small files around it). Oracle: listing == model names, size, bytes and stored SHA-256 per file == abstract map model. distinct_nontrivial counts distinct signatures (variant, layers, #files, interleaved, alignment class of content length vs CHUNK and BLOCK, alignment class of the encryption-layer plaintext vs CHUNK, alignment class of the file-layer stream length vs BLOCK (compression) or CHUNK, name kinds). Half of the production-size runs are ALIGNED by a solver: a model of the file-layer stream length (blocks + marker + index footer) grows one piece so that the stream handed to the compression layer is exactly k*4 MiB (or +1, -1), respectively the encryption-layer plaintext exactly k*128 KiB (or +1..5 - the footer length field alone or split in the last chunk -, 15, 16, 17, -1).".into()
+        "run = seeded valid writer history (start/append/end/add interleaved, boundary-biased piece sizes relative to the variant's constants) on one of the variants s0/s1/prodv/prod x 4 layer sets x level 0..11 x 1..4 recipients (one encrypted run in 30: 17, 84, 85, 86, 128, 300 or 1000 recipients; one scaled run in 25: 65..300 files of which 1-3 stay open across dozens of others; one in 60: a file with 255..4100 - thorough: 65537 - non-contiguous runs; one compressed production-size run in 10: a 4-5 MiB file of incompressible data appended in pieces of 64..512 bytes, i.e. 8000..80000 appends into one compression block, now and then with a flush after each), written to the simulated sink with full transfers (one history in four with flushes between calls, one in five with piece sources that return short reads or hold more than announced), then read back through the simulated source (caller buffers of 4 KiB, now and then 1, 7, 100, CHUNK-1, CHUNK+1, 64 KiB or 1 MiB bytes); the first 4104 runs enumerate every content length 0..512 on s0 for 1- and 2-file archives x 4 layer sets. The first 4 runs of the thorough tier hold a file of 2^32 + up to 64 MiB bytes (streamed; zeros under compression alone / over encryption; on the last one incompressible noise under compression, so that the compressed blocks themselves total more than 2^32 bytes - that archive lives in a scratch file; production constants; judged on listing, announced size, streamed length and SHA-256, stored hash, and the small files around it). Oracle: listing == model names, size, bytes and stored SHA-256 per file == abstract map model. distinct_nontrivial counts distinct signatures (variant, layers, #files, interleaved, alignment class of content length vs CHUNK and BLOCK, alignment class of the encryption-layer plaintext vs CHUNK, alignment class of the file-layer stream length vs BLOCK (compression) or CHUNK, name kinds). Half of the production-size runs are ALIGNED by a solver: a model of the file-layer stream length (blocks + marker + index footer) grows one piece so that the stream handed to the compression layer is exactly k*4 MiB (or +1, -1), respectively the encryption-layer plaintext exactly k*128 KiB (or +1..5 - the footer length field alone or split in the last chunk -, 15, 16, 17, -1).".into()
     }
     fn assumptions(&self) -> Vec<String> {
         vec![
@@ -39,6 +39,13 @@ impl Prop for C01 {
         }
     }
     fn make(&self, seed: u64, run: u64, tier: Tier) -> Case {
+        // thorough tier: the four huge runs come FIRST (a worker that runs out of its wall-clock budget drops the
+        // runs at the end of its list, never these); every other run keeps the index it has in the quick tier
+        let (run, huge_k) = if tier == Tier::Thorough {
+            if run < HUGE_RUNS { (SYS_N + 120_000 + run, Some(run)) } else { (run - HUGE_RUNS, None) }
+        } else {
+            (run, None)
+        };
         let mut rng = Rng::derive(seed, "C01", run, "gen");
         if run < SYS_N {
             let layers = (run % 4) as u8;
@@ -60,10 +67,9 @@ impl Prop for C01 {
             ops.push(WOp::Finalize);
             return Case::new("C01", cfg, ops);
         }
-        if tier == Tier::Thorough && run >= SYS_N + 120_000 {
+        if let Some(k) = huge_k {
             // a file longer than 2^32 bytes (zeros, streamed through compression, alone or over encryption): sizes,
             // offsets and counters beyond 32 bits in the writer, the index and the reader
-            let k = run - SYS_N - 120_000;
             // the last one is INCOMPRESSIBLE (compression alone, level 0): more than 2^32 bytes of compressed blocks, the
             // archive itself spilled to a scratch file
             let noise = k == HUGE_RUNS - 1;
